@@ -28,8 +28,18 @@ func c18Planned(e *Env, viol func(kind, sig, what, chk string, rep any), mu *syn
 		r := hx.NewRand(e.Seed, fmt.Sprintf("c18plan-%d", ci))
 		g := &sqGen{r: r}
 		cur := g.schema(1 + r.Intn(3))
+		if ci%5 == 2 && len(cur.Tables) > 0 {
+			// a VIRTUAL generated column followed by an ordinary column: the desired schema drops both
+			t := cur.Tables[0]
+			t.Cols = append(t.Cols, sqCol{Name: "gvx", Type: "integer", Gen: "id + 1"}, sqCol{Name: "zdrop", Type: "integer"})
+		}
 		des := cur.clone()
 		var edits []*sqEdit
+		if ci%5 == 2 && len(des.Tables) > 0 {
+			t := des.Tables[0]
+			t.Cols = t.Cols[:len(t.Cols)-2]
+			edits = append(edits, &sqEdit{"drop-column", t.Name, "gvx"}, &sqEdit{"drop-column", t.Name, "zdrop"})
+		}
 		for k := 0; k < 1+r.Intn(3); k++ {
 			if ed := g.edit(des); ed != nil {
 				edits = append(edits, ed)
@@ -125,4 +135,68 @@ func c18Planned(e *Env, viol func(kind, sig, what, chk string, rep any), mu *syn
 			}
 		}
 	})
+}
+
+// c18Window: the window of files `migrate lint` analyses is the one asked for on the command line, also when
+// the project file names another one (env { lint { latest = K } }); with the flag absent the project file
+// decides. A destructive file inside the window is reported, one outside is not.
+func c18Window(e *Env, viol func(kind, sig, what, chk string, rep any), mu *sync.Mutex) {
+	dir := filepath.Join(e.Work, "c18window")
+	os.RemoveAll(dir)
+	os.MkdirAll(filepath.Join(dir, "m"), 0o755)
+	defer os.RemoveAll(dir)
+	files := []dirFile{
+		{"1_a.sql", "CREATE TABLE t1 (id int);\nCREATE TABLE t2 (id int);\n"},
+		{"2_b.sql", "DROP TABLE t1;\n"},
+		{"3_c.sql", "CREATE TABLE t3 (id int);\n"},
+		{"4_d.sql", "CREATE TABLE t4 (id int);\n"},
+	}
+	if err := writeMigrationDir(filepath.Join(dir, "m"), files); err != nil {
+		return
+	}
+	type wc struct {
+		cfg, flag int // 0: not given
+		flagged   bool
+	}
+	for _, c := range []wc{{0, 3, true}, {0, 2, false}, {1, 3, true}, {2, 3, true}, {3, 2, false}, {3, 1, false}, {3, 0, true}, {2, 0, false}, {1, 4, true}} {
+		cfg := "env \"local\" {\n  dev = \"sqlite://dev?mode=memory\"\n  migration {\n    dir = \"file://m\"\n  }\n"
+		if c.cfg > 0 {
+			cfg += fmt.Sprintf("  lint {\n    latest = %d\n  }\n", c.cfg)
+		}
+		cfg += "}\n"
+		os.WriteFile(filepath.Join(dir, "atlas.hcl"), []byte(cfg), 0o644)
+		args := []string{"migrate", "lint", "--env", "local", "--format", "{{ json . }}"}
+		if c.flag > 0 {
+			args = append(args, "--latest", fmt.Sprint(c.flag))
+		}
+		o := runAtlas(e, dir, nil, args...)
+		id := fmt.Sprintf("lint window: project file latest=%d, --latest %d", c.cfg, c.flag)
+		rep := map[string]any{"case": id}
+		mu.Lock()
+		e.Res.Count("c18window:"+id, c.flagged, "lint-window")
+		mu.Unlock()
+		var out lintOut
+		if err := json.Unmarshal([]byte(o.Stdout), &out); err != nil {
+			viol("failing-input", "lint-output-unreadable", fmt.Sprintf("%s: exit %d: %s %s", id, o.Code, trunc(o.Stdout, 200), trunc(o.Stderr, 200)), "Props.C18", rep)
+			continue
+		}
+		got := false
+		var names []string
+		for _, lf := range out.Files {
+			names = append(names, lf.Name)
+			for _, rp := range lf.Reports {
+				for _, d := range rp.Diagnostics {
+					got = got || d.Code == "DS102"
+				}
+			}
+		}
+		switch {
+		case c.flagged && !got:
+			viol("failing-input", "destructive-not-flagged", fmt.Sprintf("%s: the window holds 2_b.sql (DROP TABLE t1), but no DS102 is reported; files analysed: %v, exit %d", id, names, o.Code), "Props.C18 no false negative (window)", rep)
+		case !c.flagged && got:
+			viol("failing-input", "additive-flagged", fmt.Sprintf("%s: 2_b.sql lies outside the window, but DS102 is reported; files analysed: %v", id, names), "Props.C18 no false positive (window)", rep)
+		case c.flagged && o.Code == 0:
+			viol("failing-input", "destructive-exit-zero", fmt.Sprintf("%s: DS102 is reported but the command exits 0", id), "Props.C18 exit status (window)", rep)
+		}
+	}
 }
